@@ -145,7 +145,7 @@ func ProfileFor(prop, tier string, seed uint64) *Profile {
 			pf.Stmts = [2]int{10, 70}
 			pf.MaxRows = 10
 		}
-		if (thorough && seed%16 == 9) || longLogForced {
+		if (thorough && seed%16 == 9) || (!thorough && seed%1000000 == 9) || longLogForced {
 			longLog(pf, seed/16)
 		}
 	case "C04":
@@ -201,6 +201,21 @@ func ProfileFor(prop, tier string, seed uint64) *Profile {
 			pf.BigInsertOnly = true
 			pf.Boundary = 1
 			pf.StallP = 0.01
+		}
+		if v == 7 {
+			// refusals: a cache of a dozen pages, no tick while a statement could
+			// use one, statements of many rows - the cache fills up with dirty
+			// pages in the middle of a statement (often inside a split) and the
+			// statement is refused; the trees are walked right after
+			pf.CacheCaps = []int{12, 13, 14, 16, 20}
+			pf.NoForceFlush = true
+			pf.TickModes = []string{"none", "sparse", "late"}
+			pf.Tables = [2]int{1, 2}
+			pf.WInsert, pf.WCreate, pf.WDelete, pf.WUpdate = 80, 1, 6, 6
+			pf.MaxRows = 24
+			pf.Stmts = [2]int{20, 80}
+			pf.Boundary = 0
+			pf.TreeEvery = 4
 		}
 		if thorough && (v == 3 || v == 4) {
 			pf.Stmts = [2]int{500, 900}
@@ -309,7 +324,7 @@ func ProfileFor(prop, tier string, seed uint64) *Profile {
 		pf.Values = "mixed"
 		pf.Stmts = [2]int{15, 60}
 	}
-	if (thorough || giantForced) && (prop == "C01" || prop == "C11" || prop == "C16") && (seed%16 == 9 || giantForced) {
+	if (prop == "C01" || prop == "C11" || prop == "C16") && ((thorough && seed%16 == 9) || (!thorough && seed%1000000 == 9) || giantForced) {
 		giant(pf, seed/16)
 	}
 	return pf
@@ -327,8 +342,9 @@ func c13MultiDB(pf *Profile) {
 
 // giant: one table grown by wide INSERTs until it has more leaves than the
 // default cache has room for pages (10 000), then a tail of updates, deletes,
-// selects and restarts that favours the newest rows. Thorough tier only, a
-// sixteenth of the jobs: the one place where the amount of data is real.
+// selects and restarts that favours the newest rows. A sixteenth of the
+// thorough jobs, one job (the tenth) of every quick run: the one
+// place where the amount of data is real.
 func giant(pf *Profile, r uint64) {
 	pf.GiantRows = 43000 + int(r%5)*1500
 	pf.MaxRows = 64
